@@ -71,8 +71,9 @@ def build_harness(ctx):
 
 class Case:
     """one value: python dict t, generator class, JSON text"""
-    def __init__(self, klass, t, flagsets=None, sweep=True, dyn=True, file=True, note=''):
+    def __init__(self, klass, t, flagsets=None, sweep=True, dyn=True, file=True, note='', allocfail=False):
         self.klass, self.t, self.flagsets, self.sweep, self.dyn, self.file, self.note = klass, t, flagsets, sweep, dyn, file, note
+        self.allocfail = allocfail
         self.json = U.t_json(t)
         self.feat = U.features(t)
 
@@ -201,14 +202,17 @@ def run(ctx):
                                    [rng.randint(1, L + 2 * RSV) for _ in range(6 if ctx.thorough else 2)]))
                 if L > 60000: sizes = [0, RSV, RSV + 1, L + RSV]
                 for sz in sizes:
-                    cl.append('dyn %d %d %d' % (fl, ind, sz)); metas.append(('dyn', p, sz))
-                    mlines.append((p, 'dyn', sz, 'run %s d %d %d %d %d %s' % (var, sz, ind, fl & 1, (fl >> 1) & 1, p['tok']), p['nops']))
+                    cl.append('dyn %d %d %d' % (fl, ind, sz)); metas.append(('dyn', p, (sz, 0)))
+                # allocation failures: the k-th enlargement fails (overflow must be reported, nothing written outside)
+                if c.allocfail:
+                    for sz in (RSV, 100, max(RSV, L // 3)):
+                        for k in (1, 2, 3):
+                            cl.append('dyn %d %d %d %d' % (fl, ind, sz, k)); metas.append(('dyn', p, (sz, k)))
             if c.file:
                 cl.append('file %d %d' % (fl, ind)); metas.append(('file', p, None))
-                mlines.append((p, 'file', None, 'run %s l 0 %d %d %d %s' % (var, ind, fl & 1, (fl >> 1) & 1, p['tok']), p['nops']))
+                mlines.append((p, 'file', None, 'run %s l 0 - %d %d %d %s' % (var, ind, fl & 1, (fl >> 1) & 1, p['tok']), p['nops']))
         units.append((c, cl, metas))
 
-    ctx.log('%d values, %d (value, flags) pairs, %d model requests' % (len(cases), len(plans), len(mlines)))
     # implementation: values spread over harness processes
     chunks = U.split_chunks(units, 14)
 
@@ -235,7 +239,15 @@ def run(ctx):
                     else:
                         c.verify = int(r.split()[2])
                     continue
+                if kind == 'dyn':
+                    # reply = record + the block sizes the printer asked of realloc: the ORACLE input of the model run
+                    f = r.split(' ')
+                    alloc = f[1] if len(f) > 1 else '-'
+                    impl[(id(p), kind, meta)] = (f[0], line, alloc)
+                    mlines.append((p, 'dyn', meta, 'run %s d %d %s %d %d %d %s' % (var, meta[0], alloc, p['ind'], p['fl'] & 1, (p['fl'] >> 1) & 1, p['tok']), p['nops']))
+                    continue
                 impl[(id(p), kind, meta)] = (r, line)
+    ctx.log('%d values, %d (value, flags) pairs, %d model requests' % (len(cases), len(plans), len(mlines)))
     with open(os.path.join(ctx.bdir, 'model_requests.txt'), 'w') as f:
         for m in mlines: f.write('%d %s %s\n' % (m[4], m[0]['case'].klass, m[3]))
     # model: heavy lines first
@@ -260,17 +272,17 @@ def run(ctx):
             if base[k]: continue
             v2 = dict(base); v2[k] = True
             vs = ''.join('1' if v2[x] else '0' for x in ('progress', 'b64', 'end', 'sep'))
-            r = U.run_model(ctx, ['run %s %s %d %d %d %d %s' % (vs, mode, size, p['ind'], p['fl'] & 1, (p['fl'] >> 1) & 1, p['tok'])])[0]
+            r = U.run_model(ctx, ['run %s %s %d - %d %d %d %s' % (vs, mode, size, p['ind'], p['fl'] & 1, (p['fl'] >> 1) & 1, p['tok'])])[0]
             if r != 'HANG' and r.split()[0].split(':')[2] == '0': keys.append(key)
         if not keys and not base['end'] and not base['sep']:
             vs = ''.join('1' if (base[x] or x in ('end', 'sep')) else '0' for x in ('progress', 'b64', 'end', 'sep'))
-            r = U.run_model(ctx, ['run %s %s %d %d %d %d %s' % (vs, mode, size, p['ind'], p['fl'] & 1, (p['fl'] >> 1) & 1, p['tok'])])[0]
+            r = U.run_model(ctx, ['run %s %s %d - %d %d %d %s' % (vs, mode, size, p['ind'], p['fl'] & 1, (p['fl'] >> 1) & 1, p['tok'])])[0]
             if r != 'HANG' and r.split()[0].split(':')[2] == '0': keys = [KEY_END, KEY_SEP]
         return keys
 
     explained = {}
 
-    def oracle(c, p, mode, size, rec, line):
+    def oracle(c, p, mode, size, rec, line, alloc_failed=False):
         """the property statement on the implementation alone; returns True when a violation was recorded"""
         L, fl, ind = p['L'], p['fl'], p['ind']
         what = '%s buffer size %s, flags %d, indent %d, text length %d, value class %s' % (mode, size, fl, ind, L, c.klass)
@@ -299,6 +311,11 @@ def run(ctx):
                     rec['ret'], rec['err'], L, 'fits below' if want_ok else 'does not fit below', size - RSV, what), replay_of(c, p, line)); return True
             if rec['ret'] < 0 and rec['err'] not in (E_OVERFLOW, E_DEEP):
                 ctx.violation('error-code', 'unexpected error code %d: %s' % (rec['err'], what), replay_of(c, p, line)); return True
+        elif alloc_failed:
+            if rec['ret'] >= 0 or rec['err'] != E_OVERFLOW:
+                ctx.violation('alloc-failure-unreported', 'an enlargement of the growing buffer failed but the printer returned %d (error %d) instead of the overflow error: %s' % (
+                    rec['ret'], rec['err'], what), replay_of(c, p, line)); return True
+            return False
         else:
             if (rec['ret'] >= 0) != (ref_ret >= 0) or (rec['ret'] >= 0 and rec['ret'] != ref_ret):
                 ctx.violation('modes-disagree', '%s output returned %d, reference growing buffer returned %d: %s' % (mode, rec['ret'], ref_ret, what), replay_of(c, p, line)); return True
@@ -335,13 +352,15 @@ def run(ctx):
 
     ndis = 0
     nmodel = [0]
+    ntrace = [0]; trace_examples = []     # flush-call traces differ: diagnostic only, the property does not speak about them
     pending_corr = []
     # the property statement on every implementation print of the sweeps (every size), independent of the model
     bad_sizes = set()
     plan_by_id = {id(x): x for x in plans}
-    for (kind_key, (reply, line)) in list(impl.items()):
+    for kind_key, val in list(impl.items()):
         pid_, kind, meta = kind_key
         if kind != 'sweep': continue
+        reply, line = val
         p = plan_by_id[pid_]; c = p['case']
         if reply.startswith('CRASH') or reply in ('NOBUF', 'BAD'): continue
         a, b = meta
@@ -356,7 +375,7 @@ def run(ctx):
         if kind != 'sweep':
             r = impl.get((id(p), kind, meta))
             if r is None: continue
-            reply, line = r
+            reply, line = r[0], r[1]
             if reply.startswith('CRASH') or reply in ('NOBUF', 'BAD'):
                 ctx.violation('crash:' + kind, 'harness process died or lost its state: ' + reply[:300], replay_of(c, p, line)); continue
         if kind == 'sweep':
@@ -374,6 +393,9 @@ def run(ctx):
                 if cr is None: continue
                 nmodel[0] += 1
                 if cr['hang'] or cr['over'] > 0: continue          # judged by the oracle below
+                if U.same(cr, mm) and not U.same_trace(cr, mm):
+                    ntrace[0] += 1
+                    if ntrace[0] <= 3: trace_examples.append('fixed %d flags %d indent %d class %s: impl %d calls, model %d calls' % (sz, p['fl'], p['ind'], c.klass, cr['ntr'], mm['ntr']))
                 if not U.same(cr, mm):
                     one = 'sweep %d %d %d %d' % (p['fl'], p['ind'], sz, sz)
                     ndis += 1
@@ -385,15 +407,27 @@ def run(ctx):
             mm = U.parse_m(f0)
             cr = U.parse_c(reply)
             mode = 'growing' if kind == 'dyn' else 'file'
-            ctx.count('%s|%d|%d|%s|%s' % (c.json[:48].hex(), p['fl'], p['ind'], kind, meta), klass=mode + ':' + c.klass)
-            bad = oracle(c, p, mode, meta, cr, line)
+            ctx.count('%s|%d|%d|%s|%s' % (c.json[:48].hex(), p['fl'], p['ind'], kind, meta), klass=mode + ('-allocfail' if kind == 'dyn' and meta[1] else '') + ':' + c.klass)
+            alloc = r[2] if kind == 'dyn' else '-'
+            failed = kind == 'dyn' and '0' in alloc.split(',')
+            if kind == 'dyn' and not cr['hang'] and cr['over'] == 0 and not mm['hang'] and mm.get('obad'):
+                # the sizes realloc was asked for do not satisfy the side condition of the theorems (new >= old + reserve)
+                ctx.violation('growth-policy-side-condition', 'the growing buffer is enlarged to a block that does not restore the reserve above the old block '
+                              '(initial size %s, blocks %s, reserve %d): outside the proved side condition new >= old + reserve' % (meta[0], alloc, RSV),
+                              replay_of(c, p, line, {'realloc_sizes': alloc, 'model_line': mline[:400]}))
+            bad = oracle(c, p, mode, meta[0] if kind == 'dyn' else None, cr, line, failed)
             if not bad and not U.same(cr, mm):
                 ndis += 1
-                ctx.violation('corr:' + kind, 'implementation and model (variant %s) disagree, %s initial size %s, flags %d indent %d, class %s: impl %s model %s' % (
-                    var, mode, meta, p['fl'], p['ind'], c.klass, cr, mm), replay_of(c, p, line, {'model_line': mline[:400]}))
+                ctx.violation('corr:' + kind, 'implementation and model (variant %s) disagree, %s initial size %s, blocks from realloc %s, flags %d indent %d, class %s: impl %s model %s' % (
+                    var, mode, meta, alloc, p['fl'], p['ind'], c.klass, cr, mm), replay_of(c, p, line, {'model_line': mline[:400]}))
+            elif not bad and not U.same_trace(cr, mm):
+                ntrace[0] += 1
+                if ntrace[0] <= 3: trace_examples.append('%s %s flags %d indent %d class %s: impl %d calls, model %d calls' % (mode, meta, p['fl'], p['ind'], c.klass, cr['ntr'], mm['ntr']))
     for key, what, rep, where in pending_corr:
         if where not in bad_sizes: ctx.violation(key, what, rep)
-    ctx.log('compared; %d fixed-size prints also run on the model; disagreements with the model: %d' % (nmodel[0], ndis))
+    ctx.log('compared; %d fixed-size prints also run on the model; disagreements with the model: %d; prints whose ctx->flush call trace differs (diagnostic): %d' % (nmodel[0], ndis, ntrace[0]))
+    if ntrace[0]:
+        ctx.notes.append('diagnostic: %d prints agree with the model on every observable but call ctx->flush at different p - pflush (e.g. %s)' % (ntrace[0], '; '.join(trace_examples)))
     p0 = plans[0]
     ctx.sample({'value_json': p0['case'].json.decode('latin1')[:200], 'flags': p0['fl'], 'indent': p0['ind'], 'text_length': p0['L'],
                 'impl_ref': impl.get((id(p0), 'ref', None), ('',))[0][:120]})
@@ -445,7 +479,7 @@ def probes(ctx, H, RSV):
     # (4) base64 longer than the room below pflush, growing and fixed buffers
     t = {'b': bytes(range(256)) * 2}
     j, ls, res, err = ask(t, ['dyn 0 0 %d' % RSV, 'dyn 0 0 100', 'sweep 0 0 %d %d' % (RSV + 40, RSV + 43), 'sweep 0 0 300 303'])
-    recs = [U.parse_c(x) for r in res for x in r.split(' ') if x and x != 'S' and x[0] in '-0123456789']
+    recs = [U.parse_c(x) for r in res for x in r.split(' ') if x.count(':') == 6]
     hang = any(r['hang'] for r in recs)
     ctx.count('probe b64', klass='probe')
     variant['b64'] = not hang
@@ -523,6 +557,25 @@ def make_cases(ctx, rng, RSV, FLUSH):
     add('vectors', {'iv': list(range(-20, 40)), 'strs': [b'', b'a', b'"'], 'sv': [], 'tv': [], 'uv': [], 'ev': [], 'dv': [], 'cv': []})
     add('nested-root', {'nest': {'nest': {'s': b'inner', 'tv': [{}, {'i': 1}]}, 'i': 3}, 'i': 9})
     add('empty', {})
+    # a field of enum type whose 31-character name and 31-character symbol are printed back to back (two symbols, no check between)
+    add('enum-long-name', {U.F31: 9, 'i': 5}, flagsets=[(0, 0), (0, 1), (1, 0), (8, 0), (1, 2)])
+    add('enum-long-name', {'s': b'abc', 'tv': [{U.F31: 9}, {U.F31: 9, 'e': 9}], 'ev': [9, 9, 9], U.F31: 9}, flagsets=[(0, 0), (0, 2), (1, 0)])
+    # enlargements of the growing buffer that fail
+    add('alloc-failure', {'s': b'x' * 150, 'iv': list(range(40)), 't': {'strs': [b'abc' * 20] * 5}}, flagsets=[(0, 0), (0, 2)], sweep=False, file=False, allocfail=True)
+    add('alloc-failure', U.chain(40), flagsets=[(0, 0), (0, 3)], sweep=False, file=False, allocfail=True)
+    add('alloc-failure', {'b': bytes(range(256)), 'uv': [('str', b'y' * 90), ('NONE', None)] * 4}, flagsets=[(0, 0)], sweep=False, file=False, allocfail=True)
+    # texts ending within a few bytes of a multiple of the file printer's flush size, indented and not
+    fmt0 = U.Fmt(); fmt0.d[0.0] = '0'; fmt0.f[0.0] = '0'
+    for ind in (0, 1, 2):
+        mk = lambda n, k: {'s': b'y' * k, 'strs': [b'q' * 100] * n}
+        r = U.run_model(ctx, ['text 1111 %d 0 0 %s' % (ind, ' '.join(U.tok_t(mk(n, 0), fmt0, False))) for n in (1, 2)])
+        f1, f2 = [len(x.split()[4]) // 2 for x in r]
+        for mult in ((1, 2, 3) if T else (1, 2)):
+            n = (mult * FLUSH - 16 - (f1 - (f2 - f1))) // (f2 - f1)
+            base = f1 + (n - 1) * (f2 - f1)
+            for j in (range(-4, 8) if T else range(-2, 5)):
+                k = mult * FLUSH + j - base
+                if k >= 0: add('file-boundary', mk(n, k), flagsets=[(0, ind)], sweep=False, dyn=False, note='text length = %d * flush size %+d' % (mult, j))
     # indentation 0..255 with nesting (level * indent grows past the flush threshold)
     for ind in ([7, 64, 255] if not T else [1, 3, 4, 31, 32, 33, 63, 64, 65, 100, 128, 200, 254, 255]):
         add('indent', U.chain(12, {'iv': [1, 2], 's': b'x'}), flagsets=[(0, ind), (1, ind)], sweep=True)
